@@ -23,7 +23,9 @@ SIM = os.path.join(ROOT, "sim")
 TARGET = os.path.join(ROOT, "target")
 BIN = os.path.join(TARGET, "release")
 REPLAYS = os.path.join(ROOT, "replays")
-EVIDENCE = os.path.join(ROOT, "evidence")
+# (selftest.py and seeded/run_all.py point this at a scratch directory while /repo is mutated:
+# evidence/<id>.json describes the unchanged tree)
+EVIDENCE = os.environ.get("VERIF_EVIDENCE_DIR") or os.path.join(ROOT, "evidence")
 # (the override exists only so that selftest.py can exercise the KNOWN-FINDING path with a scratch file)
 KNOWN = os.environ.get("VERIF_KNOWN_FINDINGS_FILE", os.path.join(ROOT, "known_findings.json"))
 NCPU = os.cpu_count() or 4
